@@ -353,8 +353,82 @@ def check(chk):
     chk.info["sink_candidates_examined"] = lz.n_sinks_examined
     chk.info["tainted_attributes"] = sorted(f"{c.split('.')[-1]}.{a}" for c, a in lz.tainted_attrs)[:80]
     _inputs(chk)
+    _inner_flags(chk, classes)
+    chk.floor("LAZY.inner", 15)
     chk.floor("LAZY.sink", 120)
     chk.floor("LAZY.input", 8)
+
+
+FLAG_PARAMS = {"compute": True, "check_nans": True, "compute_eagerly": False}  # name -> must be wired when the callee's default is True
+
+
+def _inner_flags(chk, classes):
+    """helper models / solvers built inside a lazy-capable model must take their compute / check_nans flags from the
+    outer model's flags (or pin them to False): a default of True computes whatever the user asked for"""
+    pm = chk.pm
+    seen = set()
+    lazy_bases = set()
+    for cls in classes:
+        for c in cls.mro:
+            lazy_bases.add(c.qualname)
+    prep_like = {"Preprocessor", "Scaler", "Sanitizer"}
+    for fn in pm.all_functions():
+        if fn.cls is None or fn.cls.qualname not in lazy_bases:
+            continue
+        ff = FuncFacts.of(fn)
+        ctx = Ctx(pm, fn)
+        for c in calls_in(fn):
+            for t in ctx.resolve_call(c):
+                if t.fn is None:
+                    continue
+                flags = [p for p in t.fn.params if p in FLAG_PARAMS]
+                if not flags or (isinstance(c.func, ast.Attribute) and c.func.attr == "__init__"):
+                    continue
+                if t.fn.name not in ("__init__",) and t.fn.cls is not None:
+                    continue  # methods (fit etc.) do not take the flags; only constructors and kernels do
+                defaults = t.fn.defaults()
+                b = bind_args(t.fn, c)
+                star = [k.value for k in c.keywords if k.arg is None]
+                # placeholder objects of rotators (replaced at fit) take no part in the fit
+                st = ff.cfg.enclosing_stmt(c)
+                if fn.name == "__init__" and not c.args and not c.keywords:
+                    continue
+                for p in flags:
+                    key = (fn.qualname, norm(c)[:120], p)
+                    if key in seen:
+                        continue
+                    seen.add(key)
+                    d = defaults.get(p)
+                    default_true = isinstance(d, ast.Constant) and d.value is True
+                    if p not in b:
+                        given_by_star = any(
+                            any(o.kind == "dictval" and o.name == p for o in q.ops) for sv in star for q in ff.paths(sv, spine_only=False)
+                        ) or any(
+                            q.atom.kind == "selfattr" and any(
+                                isinstance(val, ast.Dict) and any(const_str(k) == p for k in val.keys)
+                                for cc in fn.cls.mro for m, stt, val in pm.attr_assignments(cc, q.atom.name.split(".", 1)[1]))
+                            for sv in star for q in ff.paths(sv, spine_only=True)
+                        )
+                        if given_by_star or not default_true:
+                            chk.ok("LAZY.inner", fn, c, construct=f"{norm(c)[:70]}: {p} {'forwarded' if given_by_star else 'defaults to False'}")
+                            continue
+                        pinned = const_str(call_kwargs(c).get("solver")) == "full"
+                        chk.check(pinned, "LAZY.inner", fn, c, construct=f"{norm(c)[:70]}: {p} omitted",
+                                  why=f"{t.fn.qualname} is built without {p}, whose default is True: this helper computes / checks NaNs eagerly "
+                                      "even when the user's model was created with compute=False / check_nans=False")
+                        continue
+                    v = b[p]
+                    if isinstance(v, ast.Constant):
+                        ok = v.value is False or (p == "compute_eagerly" and v.value is False)
+                        chk.check(ok or const_str(call_kwargs(c).get("solver")) == "full", "LAZY.inner", fn, c, construct=f"{norm(c)[:70]}: {p}={v.value}",
+                                  why=f"{p} is pinned to {v.value}: the helper ignores the user's flag")
+                        continue
+                    wired = any(("compute" in q.atom.name or "check_nans" in q.atom.name) or
+                                (q.atom.name in ("self._params", "params") and q.ops and const_str(getattr(q.ops[0].node, "slice", None)) in ("compute", "check_nans"))
+                                or any(o.kind == "subscript" and const_str(getattr(o.node, "slice", None)) in ("compute", "check_nans") for o in q.ops)
+                                for q in ff.paths(v, spine_only=True))
+                    chk.check(wired, "LAZY.inner", fn, c, construct=f"{norm(c)[:70]}: {p} <- {norm(v)[:40]}",
+                              why=f"{p} of the helper does not derive from the model's own compute / check_nans flag")
 
 
 def _inputs(chk):
